@@ -52,6 +52,8 @@ pub const LINKS: &[(&str, &str)] = &[
     ("wiki", "[[2]]"),
     ("wikip", "[[2|t]]"),
     ("reg-long", "[some text](d/3)"),
+    // the link text runs over a line break (the link may be the last thing in its block)
+    ("reg-wrapped", "[some\ntext](2)"),
 ];
 
 pub const HOSTS: &[&str] = &[
@@ -96,6 +98,9 @@ fn build(case: &str) -> String {
     let link = LINKS.iter().find(|x| x.0 == l).unwrap().1;
     let prefix = if h == "block-ref" || h == "quoted-block-ref" { "" } else { prefix };
     let mut body = host_wrap(&h, &format!("{}{}", prefix, link));
+    if case.contains("|bare=1") {
+        body = body.replace(") tail\n", ")\n");
+    }
     // what follows the host block (blocks below the link take part in every position look-up)
     let tail = case.split('|').find_map(|p| p.strip_prefix("tail=")).unwrap_or("");
     body.push_str(match tail {
@@ -193,7 +198,7 @@ impl Engine for C13 {
         "C13"
     }
     fn rule(&self) -> String {
-        "documents = (lines before: none / LF / CRLF / non-ASCII / front-matter / CRLF list / heading) x (text before the link on its line: none / ASCII / 2-byte / astral / tab / emphasised non-ASCII) x 7 link forms x 12 hosts (single-line blocks, quoted ones, and three-line blocks with the link on the middle line), optionally with CRLF endings throughout; for every (line, UTF-16 character) of the note and two lines past its end: go-to-definition, prepareRename and rename must act iff the position is inside the link's source span (position == end of span is a don't-care), the prepareRename range must be the destination's span, every symbol line must be the heading's real line, and section/list code actions must be offered exactly on heading lines / on lines of lists. non-trivial = the document contains CRLF or non-ASCII text before the link".into()
+        "documents = (lines before: none / LF / CRLF / non-ASCII / front-matter / CRLF list / heading) x (text before the link on its line: none / ASCII / 2-byte / astral / tab / emphasised non-ASCII) x 8 link forms (one whose text runs over a line break, also as the last thing in its block) x 12 hosts (single-line blocks, quoted ones, and three-line blocks with the link on the middle line), optionally with CRLF endings throughout; for every (line, UTF-16 character) of the note and two lines past its end: go-to-definition, prepareRename and rename must act iff the position is inside the link's source span (position == end of span is a don't-care), the prepareRename range must be the destination's span, every symbol line must be the heading's real line, and section/list code actions must be offered exactly on heading lines / on lines of lists. non-trivial = the document contains CRLF or non-ASCII text before the link".into()
     }
     fn bound(&self, tier: Tier) -> String {
         match tier {
@@ -215,7 +220,14 @@ impl Engine for C13 {
                 for p in &prefixes {
                     for l in LINKS {
                         for h in HOSTS {
+                            if l.0 == "reg-wrapped" && (h.contains("heading")) {
+                                continue;
+                            }
                             emit(&format!("before={}|prefix={}|link={}|host={}|after={}", b.0, p.0, l.0, h, a));
+                            // ... and with nothing after the link in its block
+                            if l.0 == "reg-wrapped" {
+                                emit(&format!("before={}|prefix={}|link={}|host={}|after={}|bare=1", b.0, p.0, l.0, h, a));
+                            }
                         }
                         // other blocks below the host (one link form, one prefix are enough here)
                         if l.0 == "reg" && (p.0 == "none" || p.0 == "two-byte") {
@@ -261,8 +273,12 @@ impl Engine for C13 {
         for line in 0..lines.len() + 2 {
             let len16 = lines.get(line).map(|x| x.trim_end_matches('\r').encode_utf16().count()).unwrap_or(0);
             for ch in 0..len16 + 2 {
-                let inside = line == sl && sl == el && ch >= sc && ch < ec;
-                let outside = line != sl || ch < sc || ch > ec;
+                // positions are ordered (line, character); the span may run over several lines. Past
+                // the end of a line the editor clamps: such positions are judged only on the span's
+                // first and last line
+                let pos = (line, ch);
+                let inside = pos >= (sl, sc) && pos < (el, ec) && ch <= len16;
+                let outside = pos < (sl, sc) || pos > (el, ec);
                 let tdp = TextDocumentPositionParams { text_document: td.clone(), position: Position::new(line as u32, ch as u32) };
                 tr += 3;
                 let def = guarded(|| {
@@ -305,7 +321,7 @@ impl Engine for C13 {
                             // well-formed range on the link's line inside the link's span (the destination's
                             // exact columns are reported in the detail only)
                             let _ = (dl, dc, d2l, d2c);
-                            let well_formed = got.0 <= got.1 && got.0 .0 == sl && got.1 .0 == sl && got.0 .1 >= sc && got.1 .1 <= ec;
+                            let well_formed = got.0 <= got.1 && got.0 >= (sl, sc) && got.1 <= (el, ec);
                             if !well_formed {
                                 push("prepareRename", "range", format!("prepareRename at ({},{}) returned range {:?} (placeholder {:?}), the destination {:?} is at {:?}; text {:?}", line, ch, got, placeholder, l.dest, ((dl, dc), (d2l, d2c)), text));
                             }
@@ -358,7 +374,8 @@ impl Engine for C13 {
                 let offers_section = kinds.iter().any(|k| k == "refactor.rewrite.section.list");
                 let offers_list = kinds.iter().any(|k| k == "refactor.rewrite.list.type");
                 // a block reference (also inside a quote) offers "inline quote" on its own line
-                let is_ref_line = l.alone_in_para && !l.in_table && line == sl && lib.contains_key(resolve("", &l.dest).as_deref().unwrap_or("?"));
+                // (a link that is the whole first paragraph of a list item is the item's text, not a reference)
+                let is_ref_line = l.alone_in_para && !l.in_table && !parse(case).3.contains("item") && line >= sl && line <= el && lib.contains_key(resolve("", &l.dest).as_deref().unwrap_or("?"));
                 let offers_inline = kinds.iter().any(|k| k == "refactor.inline.reference.quote");
                 if is_ref_line != offers_inline {
                     push("action-line", "reference", format!("line {} is{} the line of a block reference but 'inline quote' is{} offered there (kinds {:?}); text {:?}", line, if is_ref_line { "" } else { " not" }, if offers_inline { "" } else { " not" }, kinds, text));
